@@ -115,6 +115,16 @@ def model_check(module, cfg=None, must_take=(), **kw):
     return r
 
 
+def expect_refuted(module, cfg, invariant, **kw):
+    """Control run: TLC must REFUTE `invariant` for this configuration (e.g. the pinned design alternative).
+    Shows the invariant is not vacuous; a run that does not violate it is a machinery failure."""
+    r = run_tlc(module, cfg, **kw)
+    if invariant not in r.violated:
+        raise MachineryError(f"control model {module}/{cfg} was expected to violate {invariant}, got {r.violated or r.error or 'no violation'}")
+    r.violated = []
+    return r
+
+
 # ------------------------------------------------------------------------------------------------
 # batched trace validation
 # ------------------------------------------------------------------------------------------------
